@@ -150,6 +150,8 @@ pub mod proofs {
                 assert!(n >= 1, "err_comes_from_a_mkdir");
                 let last = kernel::pathlog(n - 1);
                 assert!(kernel::is_err(last.ret) && e.matches_errno(Errno::new((0isize - last.ret as isize) as i32)), "err_is_the_errno_of_the_last_mkdir");
+                // an existing directory anywhere on the way is not a failure ("existing content is untouched")
+                assert!(!e.matches_errno(Errno::EEXIST), "an_existing_component_is_not_an_error");
             }
         }
         assert!(unsafe { kernel::TRACE_OVERFLOW } == 0, "ghost log large enough");
@@ -203,7 +205,13 @@ pub mod proofs {
         }
         kernel::reset();
         kernel::set_mode(kernel::MODE_DENTS | kernel::MODE_FDS | kernel::MODE_ZERO_OR_ERR);
-        kernel::set_dents(buf.as_ptr(), n * REC);
+        // the records arrive in one kernel batch or split over two (symbolic split point)
+        let first: usize = kani::any();
+        // (a zero-length batch means end of directory, so the first batch is non-empty unless n == 0)
+        kani::assume(first <= n && (first >= 1 || n == 0));
+        kernel::set_dents(buf.as_ptr(), first * REC);
+        kernel::set_dents2(unsafe { buf.as_ptr().add(first * REC) }, (n - first) * REC);
+        kani::cover!(n == 2 && first == 1, "two records in two batches");
         kernel::fd_preexisting(6);
         let d: Directory = unsafe { core::mem::transmute::<i32, Directory>(6) };
         let mut it = d.read();
@@ -230,5 +238,74 @@ pub mod proofs {
         assert!(it.next().is_none(), "nothing_after_the_last_record");
         assert!(it.next().is_none(), "and_it_stays_ended");
         core::mem::forget(d);
+    }
+
+    /// stand-in for rusl::unistd::stat_fd (constant UnixStr::EMPTY: const fat pointer outside Kani's subset)
+    pub fn stub_stat_fd(fd: rusl::platform::Fd) -> rusl::Result<rusl::platform::Stat> {
+        let ret = unsafe { sc::syscall4(sc::nr::NEWFSTATAT, fd.value() as usize, 0, 0, 0) };
+        if kernel::is_err(ret) {
+            return Err(rusl::Error { msg: "stat", code: Some(Errno::new((0isize - ret as isize) as i32)) });
+        }
+        let mut st: rusl::platform::Stat = unsafe { core::mem::zeroed() };
+        let sz: i64 = kani::any();
+        kani::assume(sz >= 0 && sz <= 5);
+        st.st_size = sz;
+        unsafe { SRC_SIZE = sz as u64 };
+        Ok(st)
+    }
+    pub static mut SRC_SIZE: u64 = 0;
+
+    /// File::copy for every sequence of copy_file_range answers (short counts, 0, error): the
+    /// destination is opened create+write+truncate; each call passes *pointers* to offsets holding the
+    /// running sum of the counts returned so far and asks for exactly the remaining length; the loop
+    /// ends when the sum reaches st_size or a call returned 0; an error is propagated.
+    #[kani::proof]
+    #[kani::unwind(9)]
+    #[kani::stub(rusl::unistd::stat_fd, stub_stat_fd)]
+    pub fn c14_file_copy_offsets_and_truncation() {
+        use rusl::platform::OpenFlags;
+        let pb = *b"d\0";
+        let p = unsafe { UnixStr::from_bytes_unchecked(&pb[..]) };
+        kernel::reset();
+        kernel::set_mode(kernel::MODE_FDS | kernel::MODE_SHORT_COUNTS | kernel::MODE_ZERO_OR_ERR);
+        kernel::set_call_budget(8);
+        kernel::fd_preexisting(5);
+        let src: tiny_std::fs::File = unsafe { tiny_std::fs::File::from_raw_fd(rusl::platform::Fd::try_new(5).unwrap()) };
+        let r = src.copy(p);
+        core::mem::forget(src);
+        let size = unsafe { SRC_SIZE };
+        let mut sum: u64 = 0;
+        let mut ended = false;
+        let mut failed = false;
+        let mut i = 0;
+        while i < kernel::trace_len() {
+            let c = kernel::trace(i);
+            if c.nr == sc::nr::OPENAT {
+                let fl = c.args[2] as i32;
+                assert!(fl & OpenFlags::O_TRUNC.bits().value() != 0 && fl & OpenFlags::O_CREAT.bits().value() != 0, "destination_is_created_and_truncated");
+            }
+            if c.nr == sc::nr::COPY_FILE_RANGE {
+                assert!(!ended && !failed, "no_call_after_the_end_or_an_error");
+                assert!(c.args[1] != 0 && c.args[3] != 0, "offsets_are_passed_by_pointer");
+                // (the wrapper's locals are dead by now; what was requested is what matters)
+                assert!(c.args[4] as u64 == size - sum, "asks_for_exactly_the_remaining_bytes");
+                if kernel::is_err(c.ret) {
+                    failed = true;
+                } else if c.ret == 0 {
+                    ended = true;
+                } else {
+                    sum += c.ret as u64;
+                }
+            }
+            i += 1;
+        }
+        if failed {
+            assert!(r.is_err(), "copy_error_is_propagated");
+        }
+        if r.is_ok() {
+            assert!(sum == size || ended, "ok_only_when_everything_was_copied_or_the_source_ended");
+        }
+        kani::cover!(r.is_ok() && size == 3 && kernel::count_nr(sc::nr::COPY_FILE_RANGE) == 3, "three short copies");
+        if let Ok(f) = r { core::mem::forget(f); }
     }
 }
